@@ -9,6 +9,95 @@ NOTE_COMMON = ("Trusted: Lean 4.33.0 kernel (leanchecker re-check in the thoroug
                "established. ")
 
 META = {
+    "C14": dict(
+        text="Full proof for the gateway model (after the three fix: commits 5275520, f0c3efe, 5ad3838, each found by a proof "
+             "obligation of this property and kept expressible in the model: unescape_grow_guard_needed, getCode_guard_needed, "
+             "twirp_old_reader_truncates): unescape equals an RFC 3986 reference decoder on every byte string and "
+             "escape(key)=escape(value) decodes to (key,value) for every escaper covering '%' and '='; grpc-web bodies parse back "
+             "(reference frame parser) to exactly the accepted messages in order plus the trailer frame, text mode decodes "
+             "group-wise to the binary body; the trailer block has exactly one line per key even for a parser accepting bare CR "
+             "or LF, no value contains CR/LF, grpc-status is 0 iff the RPC succeeded; Twirp status is 200 iff success, error "
+             "status from the regenerated table (no entry is 200, default 500) with the {code,msg} object, the success body is the "
+             "first message sent (later sends refused); request bodies over the limit are rejected, never truncated, and grpcRead "
+             "allocates at most 5+maxSize and rejects an oversize declaration before allocating; getCode/unescape/buildContext/"
+             "ServeHTTP never panic. Tie: 17 function fingerprints, maxSize, nlSpace, twirpStatus and defaultProtocols regenerated "
+             "from the source; differential runs of VerifUnescape/BuildContext/GetCode/GrpcRead/TwirpRead and of "
+             "drpchttp.New(handler).ServeHTTP on httptest.ResponseRecorder with a scripted handler against the compiled model, "
+             "plus model-free oracles (net/url reference, frame/trailer parsers, status and size rules, recover).",
+        design_ref="DESIGN.md §6 C14 (and the http parts of C13)",
+        note=NOTE_COMMON + "encoding/json, encoding/base64, net/http and reflect are trusted stdlib; the JSON error body is compared "
+             "after parsing it back. Observations outside the property: the package doc names 'application/protobuf' but the table "
+             "key is 'application/proto' (the former falls back to it), and '+' in a header is not decoded as a space although "
+             "the doc speaks of query-string encoding.",
+        technique="Lean 4 theorems (induction over byte strings / message lists / unwrap chains, reference decoders) + regenerated tie + differential correspondence",
+    ),
+    "C17": dict(
+        text="Partial proof. Proved for the generator model (all service / method / package names, all streaming combinations): "
+             "the client stub, case i of the generated Description and the documented form '/'+full service name+'/'+method "
+             "are one string (rpc_name_shared) and that string determines service and method (rpc_name_injective); the four "
+             "generated method expressions are classified by the model of registerOne as the documented classes and HandleRPC "
+             "supplies exactly what the generated receiver type-asserts (shapes_classified, shape_cases, foreign_shapes_rejected); "
+             "NumMethods / Method(i) are complete (description_complete) and Mux.Register on the generated Description succeeds "
+             "and registers every method under its rpc string (register_succeeds); under the decidable predicate CollisionFree "
+             "all package-level identifiers emitted into a Go package, together with those of other generators, are pairwise "
+             "distinct and client interfaces have no duplicate method (names_distinct_partial, client_iface_methods_distinct), "
+             "with a counterexample theorem per excluded class (A_B vs A.B, FooUnimplemented, RegisterFoo/FooClient, Go-name "
+             "clashes, a method DRPCConn, foreign declarations, the leading-underscore ambiguity of the _->__ doubling). "
+             "NOT proved in Lean: that the generated file type-checks for every descriptor (needs Go's type system) - this "
+             "rests on go/types over every generated descriptor and on compiling and running generated client <-> generated "
+             "server for a subset. Tie: fingerprints and affix literals of every generator function and of "
+             "Mux.Register/registerOne/HandleRPC regenerated from source; declaration-by-declaration comparison of the real "
+             "plugin's output with the model; all method-expression arities on a real Mux.",
+        design_ref="DESIGN.md §6 C17",
+        note=NOTE_COMMON + "protogen and the message generators are trusted; type-correctness of generated code is evidenced by go/types "
+             "and execution, not proved. Known findings: name collisions (C17-name-collision), hard-coded `context` qualifier "
+             "(C17-context-qualifier).",
+        technique="Lean 4 theorems (list/string injectivity, case analysis, decide) + regenerated tie + differential correspondence of the "
+                  "generator's output + go/types + compile-and-run round trips",
+    ),
+    "C11": dict(
+        text="Full proof for the codec model: varintSize's (9*bits.Len64(n)+64)/64 equals the number of bytes AppendVarint writes for "
+             "every 64-bit n; Encode is byte for byte the protobuf encoding (spec encoder written from the wire rules) of "
+             "message{map<string,string>=1} in iteration order; Decode(Encode(m)) returns the writes of m in order for every list of "
+             "pairs (any bytes, empty strings, duplicate keys; last write wins), concatenated encodings merge, empty map <-> empty "
+             "bytes, Decode never indexes out of range on any input, and the documented strictness (wrong tag, trailing bytes, unknown "
+             "field, swapped or missing fields, over-long varint) is shown on concrete inputs. Full proof for NewServerStream's packet "
+             "loop in isolation: the stream's context carries exactly the map of the last metadata packet with the invoke's stream "
+             "id received in the same call and nothing otherwise (metadata_scoped, metadata_scoped_own_id under the reader's id "
+             "monotonicity), abandoned metadata is not inherited, the last metadata packet wins, undecodable metadata ends the call "
+             "with the decoder's error, consecutive calls are independent, and codec + scoping compose (client_metadata_arrives). "
+             "Partial end to end: which packets reach NewServerStream (manageReader routing) is not modelled; it is exercised on a "
+             "real Manager over net.Pipe with raw frames and with a real drpcconn client. Tie: fingerprints of varintSize, "
+             "encodedStringSize, appendEntry, readEntry, readKeyValue, Encode, Decode, NewServerStream, doInvoke/doNewStream and the "
+             "Kind constants regenerated from source; differential runs of Encode/Decode and of NewServerStream call sequences "
+             "against the compiled model; direct oracles: round trip, protowire reference bytes, google.golang.org/protobuf "
+             "(dynamicpb) reading and writing the same message, independent strict reference decoder, handler-sees-own-metadata.",
+        design_ref="DESIGN.md §6 C11",
+        note=NOTE_COMMON + "Go maps are modelled as write logs observed through last-write-wins lookup; entry sizes are assumed to fit 64 bits.",
+        technique="Lean 4 theorems (induction, bit-length arithmetic, refinement to a protobuf spec encoder) + regenerated tie + differential correspondence + direct oracles incl. the protobuf library",
+    ),
+    "C10": dict(
+        text="Full proof for the error codec and the code search: any 64-bit code and any message bytes ('%', NUL, invalid "
+             "UTF-8, empty, long) survive MarshalError/UnmarshalError exactly (error_codec_roundtrip, error_roundtrip, "
+             "marshal_layout), fewer than 8 bytes decode to a plain error, code 0 adds no wrapper, drpcerr.Code finds a code "
+             "below any mix of fewer than 100 Cause()/Unwrap() wrappers, prefers Code() over Cause() over Unwrap(), returns 0 on "
+             "every cyclic or code-less structure, and loses codes from depth 100 on (counterexample theorem replayed on the "
+             "code; listed finding). Partial for the end-to-end statement: over a sequential model of drpcserver.handleRPC, "
+             "drpcmux.HandleRPC and the client's HandlePacket/MsgRecv, a handler that sends k messages and returns error e "
+             "makes the client receive the k messages and then an error with text e.Error() and code Code(e) "
+             "(handler_error_reaches_client, through the mux: mux_handler_error_reaches_client), dispatcher failures arrive "
+             "with their text (dispatcher_errors_reach_client), a nil return never yields an error "
+             "(success_never_yields_error); the composition with the concurrent manager/transport is evidenced by end-to-end "
+             "correspondence runs over net.Pipe, not proved. Two excluded points are theorems replayed on the code and listed "
+             "as findings: error after CloseSend, ManualFlush with unflushed frames.",
+        design_ref="DESIGN.md §6 C10, §9-10, §9-13",
+        note=NOTE_COMMON + "Error values are an inductive model (which methods exist, what they return, the Error() text); "
+             "strconv.Quote is modelled exactly for ASCII and never-valid UTF-8 bytes only; in-order packet delivery and the "
+             "absence of transport faults/cancellation are assumed for the end-to-end statement.",
+        technique="Lean 4 theorems (induction on wrapper lists and message lists, arithmetic for the big-endian code) + "
+                  "regenerated tie (fingerprints of 16 functions, loop bound, format strings, packet kinds) + differential "
+                  "correspondence (codec, code search on real Go error values, end-to-end RPCs) + direct oracles",
+    ),
     "C08": dict(
         text="Full proof for the codec model: varint and frame round trip for all 64-bit ids / 6-bit kinds / payloads, totality "
              "of the parser, exact accounting of consumed bytes, extension stability, 'need more data' for proper prefixes, "
@@ -31,6 +120,75 @@ META = {
         design_ref="DESIGN.md §6 C09",
         note=NOTE_COMMON + "io.Reader contract assumed (0<=n<=len(p), bytes in order).",
         technique="Lean 4 theorems (induction on the stream, refinement to a chunk-independent reference) + regenerated tie + differential correspondence",
+    ),
+    "C18": dict(
+        text="Full proof for the model pair (v0.0.17 reader incl. its bufio.Scanner buffer policy; current reader of C09): "
+             "old_run_eq_reference (the released reader's result is a function of the byte stream only, for every chunking), "
+             "old_reads_new (WellFormed sequence, frames <= 1 MiB encoded, packets <= the limits: the released reader returns the "
+             "current reader's packets minus the control ones and the same final error), new_reads_old (everything a v0.0.17 "
+             "writer produces is read identically by both, no control packets), new_emits_wellformed / old_emits_wellformed "
+             "(SplitN-produced sequences with increasing ids, any split size), interop_new_to_old, "
+             "control_bit_is_old_reserved_bit (the two ParseFrame are the same function on every byte string and bit 7 affects "
+             "only Frame.Control) with old_skips_control_frames, unknown_control_ignored / unknown_noncontrol_internal for the "
+             "HandlePacket model, soft_cancel_is_control, metadata_old_new (current encoder = protobuf spec encoding of "
+             "map<string,string>=1, decoder reads it back; reuses the C11 codec lemmas), plus two theorems showing where outside "
+             "WellFormed the readers differ. Tie: fingerprints of ParseFrame/AppendFrame/ReadVarint/AppendVarint/reader/writer/"
+             "SplitN/SplitData/HandlePacket/SendCancel/sendPacketLocked/rawWriteLocked/terminal calls and the Kind table "
+             "regenerated from source; differential runs of BOTH implementations (the unmodified release in a child process) "
+             "against BOTH models on the same requests, stream-layer emission of both versions, HandlePacket on real Streams; "
+             "direct oracles old(new emission) == new emission minus control, new(old emission) == old(old emission), v0.0.17 "
+             "endpoint undisturbed, unknown control packet leaves the stream undisturbed, metadata cross-decoding. One listed "
+             "finding: metadata that is not valid UTF-8 is emitted by the working tree and refused by v0.0.17.",
+        design_ref="DESIGN.md §6 C18",
+        note=NOTE_COMMON + "bufio.Scanner is standard-library code, modelled as far as ReadPacket observes it and tied by the "
+             "differential runs only; v0.0.17 constants are hand-copied from the immutable release. Stream-layer emission "
+             "(emitStep) and HandlePacket are tied by correspondence; the well-formedness theorems are stated for SplitN-produced "
+             "packet lists with increasing ids, of which a stream's emission is an instance by construction (oracle-checked).",
+        technique="Lean 4 theorems (refinement of both readers to chunk-independent references, simulation on well-formed frame "
+                  "sequences) + regenerated tie + differential correspondence against the released binary and the working tree",
+    ),
+    "C16": dict(
+        text="Full proof on the model of drpcmigrate for all three parts. prefixConn / routeConn (sequential): for every prefix, "
+             "rest, read sizes and chunking of the connection the bytes read are prefix ++ rest and no Read spans the two readers "
+             "(prefix_transparent, prefix_reads_never_span); io.ReadFull's outcome depends only on the bytes "
+             "(read_full_chunk_independent); a registered prefix is consumed and the raw connection goes to that route, an "
+             "unregistered one goes wrapped to the default listener and reads back unmodified, a short one is closed "
+             "(routed_consumes_prefix, default_route_transparent, short_connection_closed). HeaderConn.Write over sync.Once as a "
+             "transition system for any number of goroutines and all interleavings: header exactly once and first, whole "
+             "payloads, returned n never counts header bytes, plain writes only after the header write returned, no lost "
+             "wake-up (header_once_first, header_n_excludes_header, header_write_exclusive, header_waiter_has_runner). ListenMux "
+             "as a transition system (unbounded connections, Accept callers, routed listeners; Route, routeConn, Accept, Close, "
+             "monitorListener, Run, cancel, base failure): every connection is returned by exactly one Accept or closed exactly "
+             "once, by the listener registered for its first N bytes (delivered_exactly_once_or_closed, "
+             "delivered_to_registered_route); in every quiescent state of a stopped mux all listeners are closed with an error, "
+             "no Accept is pending, no connection is parked in routeConn and Run has returned (stopped_mux_fails_accept, "
+             "accept_on_closed_listener_errors); Route with a wrong-length prefix is the only panic (route_lookup_exact, "
+             "only_route_panics). Tie: function fingerprints + DRPCHeader regenerated from source; differential runs of the real "
+             "ListenMux / HeaderConn against the compiled model on all splits of short streams, all orders of parked header "
+             "writes and enumerated / random mux schedules run to quiescence, with direct oracles (byte transparency, routed by "
+             "prefix, header once and first, exactly once, Accept fails after stop, no goroutine left).",
+        design_ref="DESIGN.md §6 C16",
+        note=NOTE_COMMON + "Non-blocking critical sections of m.mu and the once functions are atomic steps of the routing model; "
+             "the link between the routing transition system and the byte-level reader model is the shared key "
+             "(first N bytes) and is not itself a theorem.",
+        technique="Lean 4 theorems (induction; inductive invariants over transition systems with unbounded threads, grind per "
+                  "step and conjunct) + regenerated tie + differential correspondence / trace validation at quiescence",
+    ),
+    "C03": dict(
+        text="Proof, partial (growing): the stream is modelled as an atomic-step transition system (Drpc/Stream/Conc.lean: every "
+             "lock acquisition, held-flag store, signal set, writer append, transport write begin/end, packet-buffer wait of "
+             "stream.go/pktbuf.go/inspectmu.go, unbounded threads). Proved for every quiet state: terminal calls are idempotent, "
+             "nothing is emitted by calls issued after termination, sends after a remote error/cancel give EOF, receives after a "
+             "remote half-close give EOF and after a cancel the context error, unknown control packets are ignored, unknown "
+             "non-control packets and Invoke on an existing stream terminate with the documented errors, foreign-id and "
+             "post-termination packets are ignored. The model is tied to the code by fingerprints of every stream/pktbuf/"
+             "writer function and by trace validation at quiescent points of real Stream objects under a director (sequential "
+             "and parked histories); for this property a model/implementation difference on a history IS the violation "
+             "(the property says behaviour equals the state machine).",
+        design_ref="DESIGN.md §6 C03, Appendix A.3",
+        note=NOTE_COMMON + "Go runtime semantics of sync/atomic trusted; interleavings inside one quiescence-to-quiescence step are "
+             "covered by the model's theorems, not by the trace validation.",
+        technique="Lean 4 theorems over an atomic-step model (symbolic execution of call sequences) + regenerated tie + trace validation under a director",
     ),
 }
 
